@@ -2004,6 +2004,8 @@ TABLE = {
     "max": lambda x, axis=None, keepdims=False, **k: SymArray(_obj1(x)).max(axis, keepdims),
     "min": lambda x, axis=None, keepdims=False, **k: SymArray(_obj1(x)).min(axis, keepdims),
     "copy": lambda x, **k: x.copy(),
+    "all": lambda x, axis=None, keepdims=False, **k: SymArray(_obj1(x)).all(axis, keepdims=keepdims),
+    "any": lambda x, axis=None, keepdims=False, **k: SymArray(_obj1(x)).any(axis, keepdims=keepdims),
 }
 for _n in ("exp", "log", "log10", "log1p", "cos", "sin", "tan", "tanh", "sinh", "cosh", "arccos", "arcsin", "arctan",
            "arccosh", "arcsinh", "arctanh"):
